@@ -1,6 +1,8 @@
 """C03 - a worklist never contains a rejected or oversized pipetting step, even on abort."""
 import os
 import shutil
+
+import numpy as np
 import tempfile
 
 from hypothesis import strategies as st
@@ -67,7 +69,11 @@ def _case(draw, stratum):
             kind, regime = "trough", draw(st.sampled_from(["roomy", "roomy", "tight"]))  # a supply trough
         labs.append(draw(lab_spec(names[i], kind=kind, max_rows=8, max_cols=8 if kind == "plate" else 4, regime=regime, grid=True, allow_names=False, pos=(10 + i, 1 + i), filled=True if (i == 0 or stratum[1] == "oversize") else None)))
     vs = vs_ok(0.01)
-    normal = st.one_of(op_direct(vs, kinds=("aspirate", "dispense")), op_transfer(vs), op_transfer(vs), op_distribute(vs), op_evo(vs))
+    # "hint": draw from a well that was empty at the start and has been filled by a raw dispense (its composition is
+    # unknown to the tracking), and deliver into one fixed well - a multi-step history
+    hinted = st.tuples(op_transfer(vs, max_n=2), st.integers(0, 5)).map(lambda x: dict(x[0], hint=x[1]))
+    to_empty = st.tuples(op_direct(vs, kinds=("dispense",), max_n=2), st.integers(0, 7)).map(lambda x: dict(x[0], to_empty=x[1]))
+    normal = st.one_of(op_direct(vs, kinds=("aspirate", "dispense")), to_empty, op_transfer(vs), hinted, hinted, op_distribute(vs), op_evo(vs))
     ops = draw(st.lists(normal, min_size=0, max_size=8))
     fop, mode = stratum
     fail = dict(
@@ -191,6 +197,8 @@ def check_case(case) -> Obs:
             with cls(path, max_volume=M, auto_split=case["auto_split"]) as wl:
                 world = World(specs, device=device, grid=0.01, worklist=wl)
                 seen = 0
+                fed_empty = []
+                initially_empty = {(i_, idx_) for i_, lw_ in enumerate(world.labs) for idx_ in np.ndindex(lw_.volumes.shape) if lw_.volumes[idx_] == 0}
                 program = [dict(o, final=False) for o in case["ops"]] + [dict(case["fail"], final=True)]
                 for k, op in enumerate(program):
                     kind = op["op"]
@@ -202,6 +210,17 @@ def check_case(case) -> Obs:
                         if not troughs:
                             continue
                         op["src"] = troughs[op["src"] % len(troughs)]
+                    if kind == "dispense" and op.get("to_empty") is not None and initially_empty:
+                        pool = sorted(initially_empty)
+                        i_, idx_ = pool[op["to_empty"] % len(pool)]
+                        op["lw"], op["wells"] = i_, {"t": "scalar", "w": [idx_[0], idx_[1]]}
+                        op["vols"] = {"t": "scalar", "v": {"f": 0.5}}
+                    if kind == "transfer" and op.get("hint") is not None and fed_empty:
+                        i_, idx_ = fed_empty[op["hint"] % len(fed_empty)]
+                        op["src"], op["sw"] = i_, {"t": "scalar", "w": [idx_[0], idx_[1]]}
+                        op["dw"] = {"t": "scalar", "w": [0, 0]}
+                        op["vols"] = {"t": "scalar", "v": {"f": 0.6}}
+                        obs.cls("hinted-transfer")
                     if not op["final"] or op["mode"] != "oversize":
                         # ordinary operations stay within what a single step can carry
                         if kind in ("aspirate", "dispense", "distribute") or kind.startswith("evo_"):
@@ -227,6 +246,10 @@ def check_case(case) -> Obs:
                             continue
                     step = execute(world, conc)
                     obs.units += 1
+                    if kind == "dispense" and step.exc is None:
+                        for i_, idx_, dv_, _ in flat_pairs(world, conc):
+                            if dv_ > 0 and (i_, idx_) in initially_empty and (i_, idx_) not in fed_empty:
+                                fed_empty.append((i_, idx_))
                     # replay of the records so far
                     new = list(wl[seen:])
                     interp.run(new, start=seen)
